@@ -284,6 +284,91 @@ def run(ctx: Any, prog: Program) -> None:
             norm = [('fourcc' if r == 'zero' and w == 'fourcc' else ('version' if r == 'zero' and w == 'version' else r)) for r, w in zip(roles, want)]
             ctx.check('C10.B4', norm == want, bsp, n, f'save() writes the {"L4D2" if is_l4d2 else "normal"} lump header as {roles} but read() interprets the four fields as {want}',
                       func='BSP.save', text=f'header order {"L4D2" if is_l4d2 else "normal"}: {U(n)[:50]}')
+    # the same through a helper: `defer.set_data(lump_name, *self._helper(offset, length, version, fourcc))` where the helper arranges its
+    # parameters into a tuple, differently under the L4D2 test.  The tuple is evaluated symbolically (names, constant slices, concatenation).
+    def tuple_orders(hf: ast.AST) -> Optional[Dict[bool, List[str]]]:
+        params_ = [a.arg for a in hf.args.args[1:]]
+
+        def tev(e: ast.AST, env_: Dict[str, List[str]], flag: bool) -> Optional[List[str]]:
+            if isinstance(e, ast.Tuple):
+                out_: List[str] = []
+                for x in e.elts:
+                    if isinstance(x, ast.Name) and x.id in params_:
+                        out_.append(x.id)
+                    elif isinstance(x, ast.Starred):
+                        sub_ = tev(x.value, env_, flag)
+                        if sub_ is None:
+                            return None
+                        out_ += sub_
+                    else:
+                        return None
+                return out_
+            if isinstance(e, ast.Name):
+                return list(env_[e.id]) if e.id in env_ else None
+            if isinstance(e, ast.Subscript) and isinstance(e.slice, ast.Slice):
+                base_ = tev(e.value, env_, flag)
+                try:
+                    lo_ = fold.fold(e.slice.lower, {}) if e.slice.lower is not None else None
+                    hi_ = fold.fold(e.slice.upper, {}) if e.slice.upper is not None else None
+                    st_ = fold.fold(e.slice.step, {}) if e.slice.step is not None else None
+                except Exception:
+                    return None
+                return base_[lo_:hi_:st_] if base_ is not None else None
+            if isinstance(e, ast.BinOp) and isinstance(e.op, ast.Add):
+                l_, r_ = tev(e.left, env_, flag), tev(e.right, env_, flag)
+                return l_ + r_ if l_ is not None and r_ is not None else None
+            if isinstance(e, ast.IfExp) and 'L4D2' in U(e.test):
+                pos_ = not (isinstance(e.test, ast.Compare) and isinstance(e.test.ops[0], (ast.IsNot, ast.NotEq)))
+                return tev(e.body if flag == pos_ else e.orelse, env_, flag)
+            return None
+
+        def run_(body_: List[ast.stmt], env_: Dict[str, List[str]], flag: bool) -> Any:
+            for st_ in body_:
+                if isinstance(st_, ast.Expr) and isinstance(st_.value, ast.Constant):
+                    continue
+                if isinstance(st_, (ast.Assign, ast.AnnAssign)) and getattr(st_, 'value', None) is not None:
+                    tg_ = st_.targets[0] if isinstance(st_, ast.Assign) else st_.target
+                    v_ = tev(st_.value, env_, flag)
+                    if not isinstance(tg_, ast.Name) or v_ is None:
+                        return 'unknown'
+                    env_[tg_.id] = v_
+                elif isinstance(st_, ast.If) and 'L4D2' in U(st_.test):
+                    pos_ = not (isinstance(st_.test, ast.Compare) and isinstance(st_.test.ops[0], (ast.IsNot, ast.NotEq)))
+                    r_ = run_(st_.body if flag == pos_ else st_.orelse, env_, flag)
+                    if r_ is not None:
+                        return r_
+                elif isinstance(st_, ast.Return) and st_.value is not None:
+                    v_ = tev(st_.value, env_, flag)
+                    return v_ if v_ is not None else 'unknown'
+                else:
+                    return 'unknown'
+            return None
+        res_: Dict[bool, List[str]] = {}
+        for flag in (True, False):
+            r_ = run_(hf.body, {}, flag)
+            if not isinstance(r_, list):
+                return None
+            res_[flag] = r_
+        return res_
+    for n in walk_no_nested(sv):
+        if isinstance(n, ast.Call) and isinstance(n.func, ast.Attribute) and n.func.attr == 'set_data' and len(n.args) == 2 and isinstance(n.args[1], ast.Starred) \
+                and isinstance(n.args[1].value, ast.Call) and (dotted(n.args[1].value.func) or '').startswith('self.'):
+            hc = n.args[1].value
+            hname = dotted(hc.func).split('.', 1)[1]
+            if not bsp.has_func('BSP.' + hname):
+                continue
+            hf = bsp.func('BSP.' + hname)
+            orders = tuple_orders(hf)
+            ctx.shape('C10.B4', orders is not None and len(hc.args) == len(hf.args.args) - 1, bsp, n, f'header helper {hname}() arranges its parameters into a tuple (possibly differently for L4D2)', func='BSP.save', text=f'header order via {hname}')
+            if orders is None or len(hc.args) != len(hf.args.args) - 1:
+                continue
+            bound = {a.arg: role(v) for a, v in zip(hf.args.args[1:], hc.args)}
+            for flag in (True, False):
+                roles = [bound[p_] for p_ in orders[flag]]
+                want = l4d2_roles if flag else hdr_unpack
+                norm = [('fourcc' if r == 'zero' and w == 'fourcc' else ('version' if r == 'zero' and w == 'version' else r)) for r, w in zip(roles, want)]
+                ctx.check('C10.B4', norm == want, bsp, n, f'save() writes the {"L4D2" if flag else "normal"} lump header through {hname}() as {roles} but read() interprets the four fields as {want}',
+                          func='BSP.save', text=f'header order {"L4D2" if flag else "normal"} via {hname}: {U(n)[:40]}')
     # HEADER_LUMP has four integer slots
     ctx.check('C10.B4', isinstance(hdr_fmt, str) and hdr_fmt.replace('<', '') == '4i', bsp, bsp.global_assign('HEADER_LUMP'), 'HEADER_LUMP must be four int32 (offset, length, version, fourCC)',
               func='<module>', text='HEADER_LUMP format')
@@ -417,6 +502,8 @@ def run(ctx: Any, prog: Program) -> None:
 
 
 MUTANTS = [
+    {'id': 'l4d2_header_rotated_in_helper', 'file': 'bsp.py', 'find': "    def save(self, filename: Optional[str] = None) -> None:", 'replace': "    def _lump_header(self, offset: int, length: int, version: int, fourcc: int) -> tuple:\n        header = (offset, length, version, fourcc)\n        if self.game_ver is GameVersion.L4D2:\n            header = header[-1:] + header[:-1]\n        return header\n\n    def save(self, filename: Optional[str] = None) -> None:", 'extra': [{'file': 'bsp.py', 'find': "                    if self.game_ver is GameVersion.L4D2:\n                        defer.set_data(lump_name, lump.version, file.tell(), len(lump_data), lump_fourcc)\n                    else:\n                        defer.set_data(lump_name, file.tell(), len(lump_data), lump.version, lump_fourcc)\n", 'replace': "                    defer.set_data(lump_name, *self._lump_header(file.tell(), len(lump_data), lump.version, lump_fourcc))\n"}], 'expect': 'C10.B4'},
+    {'id': 'ok_l4d2_header_helper', 'file': 'bsp.py', 'find': "    def save(self, filename: Optional[str] = None) -> None:", 'replace': "    def _lump_header(self, offset: int, length: int, version: int, fourcc: int) -> tuple:\n        header = (offset, length, version, fourcc)\n        if self.game_ver is GameVersion.L4D2:\n            header = header[2:3] + header[:2] + header[3:]\n        return header\n\n    def save(self, filename: Optional[str] = None) -> None:", 'extra': [{'file': 'bsp.py', 'find': "                    if self.game_ver is GameVersion.L4D2:\n                        defer.set_data(lump_name, lump.version, file.tell(), len(lump_data), lump_fourcc)\n                    else:\n                        defer.set_data(lump_name, file.tell(), len(lump_data), lump.version, lump_fourcc)\n", 'replace': "                    defer.set_data(lump_name, *self._lump_header(file.tell(), len(lump_data), lump.version, lump_fourcc))\n"}], 'expect': None},
     {'id': 'lzma_header_dict_fitted_to_data', 'file': 'binformat.py', 'find': "        props, LZMA_FILT['dict_size'],  # Filter options encoded together.", 'replace': "        props, max(LZMA_DIC_MIN, 1 << (len(data).bit_length() - 1)),", 'expect': 'C10.B10'},
     {'id': 'lzma_props_lc_lp_swapped', 'file': 'binformat.py', 'find': "    props = (LZMA_FILT['pb'] * 5 + LZMA_FILT['lp']) * 9 + LZMA_FILT['lc']", 'replace': "    props = (LZMA_FILT['pb'] * 5 + LZMA_FILT['lc']) * 9 + LZMA_FILT['lp']", 'expect': 'C10.B10'},
     {'id': 'separator_from_version', 'file': 'bsp.py', 'find': "        vmf = VMF()\n", 'replace': "        vmf = VMF()\n        if self.out_comma_sep is None:\n            self.out_comma_sep = self.version < VERSIONS.L4D2.value\n", 'expect': 'C10.B9'},
